@@ -77,11 +77,17 @@ SPEC = {
                  "C04_mapdb_model_is_the_source", "C04_mapdb_batch_model_is_the_source", "C04_mapdb_constructor_text",
                  "C04_calls_mapdb", "C04_calls_flushkv", "C04_calls_debug", "C04_calls_kvstore_utils", "C04_skeleton_types"],
     "trusted_base": [
-        "hand-written model Hive/Model/KV.lean of kvstore/mapdb (+ flushkv, debug wrappers), tied to the working tree by "
-        "line-by-line differential execution (harness/c04) on every run - answers and, below a recording store, the forwarded calls / "
-        "debug callbacks - and by the regenerated call lists and type facts (Hive/Gen/C04_Calls.lean, C04_Skel.lean; obligations C04_calls_*)",
-        "the memory model Hive/Model/KVHeap.lean is tied by its erasure (= the value model the driver runs, with the harness scribbling over "
-        "every buffer) and by the pinned ConcatBytes call sites; it is not driven line by line itself",
+        "model Hive/Model/KV.lean of kvstore/mapdb (+ flushkv, debug wrappers): its view / batch functions (dbGet ... dbCommit, the batch "
+        "bookkeeping) and the wrapper trace model are proved to be the interpretation of the method bodies translated from the working tree "
+        "on every run (Hive/Gen/C04_Map.lean, C04_Wrap.lean; theorems C04_mapdb_*model_is_the_source, C04_wrapper_model_is_the_source_*); "
+        "trusted there: the two go/ast translators (harness/c04/mgen, wgen: unknown statement forms become `.other`), the interpreters "
+        "Hive/Model/KVMapSrc.lean / KVWrapSrc.lean (what a closed check, a map primitive, a callback guard mean), the hand-written primitives "
+        "of syncedKVMap (aget/aset/adel/adelPfx, snapshot + sort); all of it validated by line-by-line differential execution (harness/c04) "
+        "on every run - answers and, below a recording store, the forwarded calls / debug callbacks - and by the regenerated call lists and "
+        "type facts (Hive/Gen/C04_Calls.lean, C04_Skel.lean; obligations C04_calls_*)",
+        "the memory model Hive/Model/KVMem.lean (every slice a reference: keys, prefixes, realms, values) is driven line by line against the "
+        "real code (memory stream: buffers overwritten and reused at any time); the older value-only memory model KVHeap.lean is tied by its "
+        "erasure and the pinned ConcatBytes call sites",
         "specification Hive/Spec/KV.lean (one key-sorted list keyed by realm||key) - this is what 'ordered-map contract' means",
         "Go toolchain, compiled Lean driver drv_c04",
     ],
@@ -99,11 +105,15 @@ SPEC = {
         "error paths with an injected Flush failure (Hive/Model/KVFault.lean: flushAfterMutation, Copy / CopyBatched stopping at the first "
         "error); an unknown iteration direction (panic, nothing changes); mapdb with memory (Hive/Model/KVHeap.lean: which buffers are "
         "copied, which are kept) for the private-copy clause",
-        "NOT modelled: "
-        "mutation of a buffer held by a batch that is still going to be committed, and of the realm buffer passed to WithRealm "
-        "(both are kept by reference in the code - measured on every run, evidence coverage.extra observation_* - the statement "
-        "does not speak about them); after a final Commit every batch value buffer is scribbled, through every wrapper stack "
-        "(histogram commit-then-scribble:stack=...)",
+        "mapdb with memory, second level (Hive/Model/KVMem.lean): key / prefix / realm / value buffers as references - WithRealm keeps the "
+        "caller's realm slice, WithExtendedRealm / Realm() copy, keyed calls read their buffers at call time, batch Set / Delete copy the key "
+        "and keep the value slice, Commit reads the realm buffer and copies the values when it runs, the iterations make a new buffer per key; "
+        "driven line by line (m ... requests)",
+        "the method bodies of mapdb.go, flushkv.go, debug.go as translated terms (Hive/Gen/C04_Map.lean, C04_Wrap.lean) with interpreters "
+        "(Hive/Model/KVMapSrc.lean, KVWrapSrc.lean)",
+        "nil vs empty slices: one byte string in the model (`~` and `-` of the line protocol)",
+        "NOT modelled: concurrency (C05); kvstore.Copy / CopyBatched with a target that is closed DURING the copy (probed on every run, "
+        "evidence coverage.extra observation_Copy*: CopyBatched with a batch size calls Cancel on a nil batch there - outside the statement)",
     ],
     "manifest": {
         "text": "Theorems (no bounds on history length, view tree, realm/key/prefix bytes, wrapper stack): the model of mapdb with views, "
@@ -134,13 +144,29 @@ SPEC = {
                 "C04_private_inv_reachable, C04_caller_writes_do_not_reach_the_store, C04_set_stores_a_copy, C04_get_returns_a_private_copy, "
                 "C04_commit_stores_copies); the calls every function of the anchored kvstore files makes (source order, arguments by parameter "
                 "position) and the declared types are regenerated on every run and pinned (C04_calls_mapdb/_flushkv/_debug/_kvstore_utils, "
-                "C04_skeleton_types). Failing histories are minimised by delta debugging before they are reported; every request runs under a watchdog.",
-        "note": "Trusted: Lean kernel; the hand-written model (validated differentially on every run, not generated from the source); "
-                "the specification file. The private-copy clause is proved over the memory model KVHeap, whose allocation sites are pinned by the "
-                "regenerated call lists; the driver runs its erasure (value semantics) against a harness that scribbles over every buffer. "
-                "Concurrency is C05.",
-        "technique": "Lean 4 refinement proof (model -> ordered-map spec, lifted by induction to all histories) + differential correspondence",
+                "C04_skeleton_types). Failing histories are minimised by delta debugging before they are reported; every request runs under a watchdog. "
+                "Round 6: (1) derived models - harness/c04/mgen and wgen translate every method body of mapdb.go, flushkv.go, debug.go on every run "
+                "(Hive/Gen/C04_Map.lean, C04_Wrap.lean); interpreting the generated bodies gives exactly the model's dbGet/dbHas/dbSet/dbDelete/"
+                "dbDeletePrefix/dbClear/dbCheck/dbIterate/dbIterateKeys/dbCommit, view and batch creation and the batch bookkeeping "
+                "(C04_mapdb_model_is_the_source, C04_mapdb_batch_model_is_the_source), and one layer of the wrapper trace model over any stack, "
+                "for every method and every debug.New configuration (C04_wrapper_model_is_the_source_flushkv/_debug, C04_trace_model_is_sem); "
+                "constructors pinned as source text. (2) memory model with key / prefix / realm buffers (KVMem), driven line by line by a "
+                "memory stream in which the harness holds numbered buffers, overwrites and reuses them at any time: C04_mem_inv_reachable, "
+                "C04_store_never_writes_existing_buffers, C04_private_buffers_are_frozen, C04_mem_caller_writes_do_not_reach_the_store, "
+                "C04_mem_keyed_calls_read_their_buffers_at_call_time, C04_mem_get_returns_a_private_copy, C04_batch_keeps_private_key_copies, "
+                "C04_mem_commit_stores_copies, C04_iterate_keys_hands_out_copies, C04_iterate_hands_out_key_and_value_copies, "
+                "C04_extended_realm_is_a_private_copy, C04_withRealm_keeps_the_callers_slice (the code keeps that slice; outside the statement); "
+                "Go oracles caller-write-changed-stored-data, caller-buffer-changed, batch-commit-contract. (3) nil vs empty slices for keys, "
+                "prefixes, realms, values on every call incl. batches; C04_has_iff_get_iff_iterated (Has <=> Get succeeds <=> the iterations "
+                "report the key, zero-length keys and values included).",
+        "note": "Trusted: Lean kernel; the two go/ast translators and the interpreters of the translated method bodies (the view / batch / "
+                "wrapper functions of the model are proved equal to the interpreted source; syncedKVMap's map primitives stay hand-written), all "
+                "validated differentially on every run; the specification file. The private-copy clause is proved over the memory models KVHeap "
+                "(values) and KVMem (keys, prefixes, realms, values; driven line by line by the memory stream). Concurrency is C05.",
+        "technique": "Lean 4 refinement proof (model -> ordered-map spec, lifted by induction to all histories) + model functions derived from "
+                     "go/ast-translated method bodies + differential correspondence (answers, forwarded calls, buffer contents)",
     },
     "assumptions": ["sequential use (C05 covers concurrent use)",
-                    "a batch's buffers are not mutated while the batch may still be committed; realm buffers passed to WithRealm are not mutated"],
+                    "for the value-level theorems only: a batch's value buffers are not mutated while the batch may still be committed and realm "
+                    "buffers passed to WithRealm are not mutated (the memory model KVMem and the memory stream cover both)"],
 }
